@@ -685,6 +685,12 @@ func (e *Engine) FindCounterexample(v *Verdict, opt CheckOptions) map[string]any
 }
 
 func (e *Engine) findCounterexample(fc *FuncContract, opt CheckOptions) map[string]any {
+	return e.findCounterexampleIn(opt.RepoDir, fc, opt)
+}
+
+// findCounterexampleIn runs the reflective search in the module rooted at moduleDir (the repository,
+// or the scratch module of a program family).
+func (e *Engine) findCounterexampleIn(moduleDir string, fc *FuncContract, opt CheckOptions) map[string]any {
 	sp := e.PkgOf[fc]
 	var cs *ContractSet
 	var pkgDir string
@@ -696,7 +702,7 @@ func (e *Engine) findCounterexample(fc *FuncContract, opt CheckOptions) map[stri
 	if cs == nil {
 		return nil
 	}
-	pkgDir, _ = filepath.Rel(opt.RepoDir, cs.PkgDir)
+	pkgDir, _ = filepath.Rel(moduleDir, cs.PkgDir)
 	overlay := map[string][]byte{}
 	for k, b := range NeutralHookOverlay(opt.RepoDir, map[string]bool{cs.PkgDir: true}) {
 		overlay[k] = b
@@ -715,7 +721,7 @@ func (e *Engine) findCounterexample(fc *FuncContract, opt CheckOptions) map[stri
 	if opt.Tier == "thorough" {
 		maxLen = "6"
 	}
-	out, err := runOverlayTest(opt.RepoDir, pkgDir, overlay, "TestVerifReplay$", []string{"VERIF_TARGET=" + fc.Key, "VERIF_ALPHABET=" + alpha, "VERIF_MAXLEN=" + maxLen, fmt.Sprintf("VERIF_SEED=%d", opt.Seed), "VERIF_FIELDS=" + fields}, 60*time.Second)
+	out, err := runOverlayTest(moduleDir, pkgDir, overlay, "TestVerifReplay$", []string{"VERIF_TARGET=" + fc.Key, "VERIF_ALPHABET=" + alpha, "VERIF_MAXLEN=" + maxLen, fmt.Sprintf("VERIF_SEED=%d", opt.Seed), "VERIF_FIELDS=" + fields}, 60*time.Second)
 	res := map[string]any{"search": map[string]any{"alphabet": alpha, "max_len": maxLen, "target": fc.Key}}
 	for _, ln := range strings.Split(out, "\n") {
 		if strings.HasPrefix(ln, "VERIF-REPLAY: ") {
@@ -762,6 +768,18 @@ func (e *Engine) familyReplay(familyDir, oblName string) map[string]any {
 		}
 	}
 	if cs == nil {
+		return nil
+	}
+	if _, serr := os.Stat(filepath.Join(dir, "verif_replay_test.go")); serr != nil {
+		// no family-specific oracle: the derived contract is executable, use the reflective search
+		fnKey := oblName[:j]
+		for c := range e.FuncOf {
+			if e.fnKey(c) == fnKey {
+				res := e.findCounterexampleIn(familyDir, c, CheckOptions{RepoDir: e.Cfg.RepoDir, Tier: "quick", Seed: 1})
+				e.ceCache[key] = res
+				return res
+			}
+		}
 		return nil
 	}
 	overlay := map[string][]byte{}
